@@ -38,6 +38,11 @@ class Searches:
         Returns:  (bool) True = comparision passes; False = comparison fails.
         """
         typed_haystack = Nodes.typed_value(haystack)
+        # The text of a String value is that String; not the text of
+        # whatever Python literal it may happen to spell, like "0x10" or "+5".
+        text_haystack = (str(haystack)
+                         if isinstance(haystack, str)
+                         else str(typed_haystack))
         typed_needle = Nodes.typed_value(needle)
         needle_type = type(typed_needle)
         matches: bool = False
@@ -50,13 +55,13 @@ class Searches:
             elif isinstance(typed_haystack, float) and needle_type is float:
                 matches = typed_haystack == typed_needle
             else:
-                matches = str(typed_haystack) == str(needle)
+                matches = text_haystack == str(needle)
         elif method is PathSearchMethods.STARTS_WITH:
-            matches = str(typed_haystack).startswith(needle)
+            matches = text_haystack.startswith(needle)
         elif method is PathSearchMethods.ENDS_WITH:
-            matches = str(typed_haystack).endswith(needle)
+            matches = text_haystack.endswith(needle)
         elif method is PathSearchMethods.CONTAINS:
-            matches = needle in str(typed_haystack)
+            matches = needle in text_haystack
         elif method is PathSearchMethods.GREATER_THAN:
             if isinstance(typed_haystack, int):
                 if isinstance(typed_needle, (int, float)):
@@ -69,7 +74,7 @@ class Searches:
                 else:
                     matches = False
             else:
-                matches = str(typed_haystack) > str(needle)
+                matches = text_haystack > str(needle)
         elif method is PathSearchMethods.LESS_THAN:
             if isinstance(typed_haystack, int):
                 if isinstance(typed_needle, (int, float)):
@@ -82,7 +87,7 @@ class Searches:
                 else:
                     matches = False
             else:
-                matches = str(typed_haystack) < str(needle)
+                matches = text_haystack < str(needle)
         elif method is PathSearchMethods.GREATER_THAN_OR_EQUAL:
             if isinstance(typed_haystack, int):
                 if isinstance(typed_needle, (int, float)):
@@ -95,7 +100,7 @@ class Searches:
                 else:
                     matches = False
             else:
-                matches = str(typed_haystack) >= str(needle)
+                matches = text_haystack >= str(needle)
         elif method is PathSearchMethods.LESS_THAN_OR_EQUAL:
             if isinstance(typed_haystack, int):
                 if isinstance(typed_needle, (int, float)):
@@ -108,7 +113,7 @@ class Searches:
                 else:
                     matches = False
             else:
-                matches = str(typed_haystack) <= str(needle)
+                matches = text_haystack <= str(needle)
         elif method == PathSearchMethods.REGEX:
             try:
                 matcher = re.compile(needle)
@@ -116,7 +121,7 @@ class Searches:
                 raise YAMLPathException(
                     "Invalid Regular Expression ({})".format(wrap_ex),
                     "=~/{}/".format(needle)) from wrap_ex
-            matches = matcher.search(str(typed_haystack)) is not None
+            matches = matcher.search(text_haystack) is not None
         else:
             raise NotImplementedError
 
